@@ -4,6 +4,7 @@ use crate::Ctx;
 pub mod server;
 pub mod zone;
 pub mod tsig;
+pub mod writer;
 pub mod c14;
 pub mod c15;
 pub mod c16;
@@ -20,6 +21,7 @@ pub fn run(ctx: &Ctx, rep: &mut Report) -> bool {
         "c02" | "c03" | "c04" | "c05" | "c08" | "c09" => server::run(ctx, rep, &ctx.prop),
         "c06" => zone::run_c06(ctx, rep),
         "c10" => tsig::run_c10(ctx, rep),
+        "c12" | "c13" => writer::run(ctx, rep, &ctx.prop),
         "c11" => tsig::run_c11(ctx, rep),
         "c20" => zone::run_c20(ctx, rep),
         "c21" => zone::run_c21(ctx, rep),
